@@ -26,10 +26,15 @@ type c20Case struct {
 	// ElemFails: every element additionally violates a test of its own (string elements: Len(99)): a test's verdict does
 	// not depend on what other nodes of the same execution report
 	ElemFails bool `json:"elemFails,omitempty"`
+	// Test2: a second test of the same kind on the same node (Min(3).Min(5), Contains("@").Contains(".")): both are decided
+	Test2 *model.TestSpec `json:"test2,omitempty"`
 }
 
 func (c c20Case) toCase() model.Case {
 	n := &model.Node{Kind: c.Kind, Tests: []model.TestSpec{c.Test}}
+	if c.Test2 != nil {
+		n.Tests = append(n.Tests, *c.Test2)
+	}
 	if c.Kind == model.KSlice {
 		if strings.HasPrefix(c.Elem, "ptr:") {
 			n.Elem = &model.Node{Kind: model.KPtr, Elem: &model.Node{Kind: strings.TrimPrefix(c.Elem, "ptr:")}}
@@ -133,6 +138,10 @@ func TestC20(t *testing.T) {
 				for _, s := range subjects {
 					for _, mode := range modes {
 						yield(c20Case{Kind: model.KString, Test: model.TestSpec{Name: name, N: n}, Subject: model.Str(s), Mode: mode})
+						if n%2 == 0 {
+							yield(c20Case{Kind: model.KString, Test: model.TestSpec{Name: name, N: n}, Test2: &model.TestSpec{Name: name, N: n + 2}, Subject: model.Str(s), Mode: mode})
+							yield(c20Case{Kind: model.KString, Test: model.TestSpec{Name: name, N: n + 2}, Test2: &model.TestSpec{Name: name, N: n}, Subject: model.Str(s), Mode: mode})
+						}
 						if name == "len" {
 							yield(c20Case{Kind: model.KString, Test: model.TestSpec{Name: name, N: n, Not: true}, Subject: model.Str(s), Mode: mode})
 						}
@@ -331,7 +340,12 @@ func TestC20(t *testing.T) {
 				s = rapid.SampledFrom([]string{"abc", "123", "12", "1234", "xabz", "Abz", "az", "z", "A", "ab", "aB", "abz\n", "12a"}).Draw(rt, "ms")
 			}
 		}
-		return c20Case{Kind: model.KString, Test: ts, Subject: model.Str(s), Mode: rapid.SampledFrom(modes).Draw(rt, "mode")}
+		out := c20Case{Kind: model.KString, Test: ts, Subject: model.Str(s), Mode: rapid.SampledFrom(modes).Draw(rt, "mode")}
+		if (name == "prefix" || name == "suffix" || name == "contains") && rapid.IntRange(0, 3).Draw(rt, "twice") == 0 {
+			t2 := model.TestSpec{Name: name, Not: ts.Not, Str: sub()} // the same kind of test once more, with another parameter
+			out.Test2 = &t2
+		}
+		return out
 	}, propC20(func(c c20Case) bool { return len(c.Subject.S) > 0 }))
 
 	// 7. grammar classes
